@@ -131,6 +131,7 @@ func runCharCell(em *Emitter, id int, sc Scenario, seed int64) {
 		}
 	}()
 	e := NewEnum(seed)
+	e.MaxProd = 1 << 26
 	type lf struct {
 		ev   LeafEv
 		prod *big.Int
@@ -145,6 +146,9 @@ func runCharCell(em *Emitter, id int, sc Scenario, seed int64) {
 	visit := func(plan []uint32, out RunOut, res GenRes) {
 		if out.Panic != nil {
 			res = ResOf(nil, nil, out.Panic)
+		}
+		if out.Cut {
+			res = GenRes{Kind: "cut", Toks: []TokJ{}, Str: []int{}, Ent: DyadicOf(0)}
 		}
 		ev := LeafEv{Op: "leaf", D: [][2]int{}, Reads: out.Tape.Reads, Words: len(out.Tape.Words), Left: out.Tape.Leftover(),
 			Unann: out.Unannounced, Det: -1, Res: res, PathW: []int{}}
@@ -168,6 +172,9 @@ func runCharCell(em *Emitter, id int, sc Scenario, seed int64) {
 		if out2.Panic != nil {
 			res2 = ResOf(nil, nil, out2.Panic)
 		}
+		if out.Cut {
+			res2 = res
+		}
 		if reflect.DeepEqual(res, res2) {
 			ev.Det = 1
 		} else {
@@ -180,6 +187,7 @@ func runCharCell(em *Emitter, id int, sc Scenario, seed int64) {
 		maxLeaves = 20000
 	}
 	if sc.Mode == "paths" {
+		e.MaxProd, e.MaxDraws = 0, 400000
 		// selected paths: all-first, all-last, first attempt all-first then seeded, then seeded random index paths
 		for k := 0; k < sc.Paths; k++ {
 			var res GenRes
